@@ -438,3 +438,185 @@ Example C05_ex_dist_waitsome :
   = Some [[0;1;2];[];[3;4];[5;6;7;8];[9]]%Z /\
   dist_psort_w Z Z.gtb zsort (fun _ _ m => (map (fun i => [i]) (seq 0 m), [])) [2;2] [[3;1];[2;0]]%Z = None.
 Proof. split; vm_compute; reflexivity. Qed.
+
+(* ==== EVERY SCHEDULE of the per-rank message-passing programs (C05/PsortSched.v) ========================================
+   The statements above are about the sequential network `psort` and about the round semantics `dist_psort*`.  The
+   statements below are about the SYSTEM OF THE P PER-RANK PROGRAMS `psort_prog` (C05/PsortModel.v: the program that is
+   extracted and co-simulated against the traces of the real sc_psort on every run, with the tags SC_TAG_PSORT_LO / _HI)
+   under the interleaving semantics of MPI/SemPosted.v: global state = one program per rank + FIFO channels per
+   (source, destination, tag); a rank may issue its next Isend although Irecvs posted before it are still pending, and
+   complete posted receives in any order (loop 1 of sc_merge_bitonic posts, per peer record, Irecv and then Isend; all
+   requests are completed later by the Waitsome loops.  With blocking receives that order is stuck:
+   C05_ex_posting_order_blocks).
+   `run_p n s0 f`: a schedule of n steps from s0 to f.  `terminal_for_p s0 f n` (SemPosted.v): EVERY run of m steps
+   from s0 has m <= n, can be completed to f in n - m further steps, IS f (and m = n) if it is complete, and its last
+   state is never stuck.
+   Print Assumptions: functional_extensionality_dep (Coq standard library; equality of global states in MPI/Sem.v). *)
+From ScV Require Import MPI.Prog MPI.Sem MPI.SemFrame MPI.SemPosted Gen.Consts C05.PsortSched C05.PsortSchedExec.
+
+(* the co-simulated program is the integer instance of the program over an arbitrary element type - by conversion *)
+Theorem C05_psort_prog_is_instance : forall tag_lo tag_hi counts me mine,
+  psort_prog tag_lo tag_hi counts me mine =
+  psort_prog_g Z Z.gtb zsort (fun l => l) (fun m => m) tag_lo tag_hi counts me mine.
+Proof. exact psort_prog_is_instance. Qed.
+Print Assumptions C05_psort_prog_is_instance.
+
+(* one merge step of all ranks is one communication window: the keys (peer, tag) of the sends and of the receives of a
+   rank are duplicate free (two segments of a step never have the same pair of owners, because segments are maximal),
+   and rank a sends to d with tag t iff d receives from a with tag t *)
+Theorem C05_step_matching : forall (tag_lo tag_hi : Z) counts lo n a d t,
+  2 <= n -> lo + n <= cum (cumul 0 counts) (length counts) -> a < length counts -> d < length counts ->
+  ((exists ps, In ps (specs counts lo n a) /\ ps_rank ps = d /\ (if ps_lo_side ps then tag_lo else tag_hi) = t) <->
+   (exists ps', In ps' (specs counts lo n d) /\ ps_rank ps' = a /\ (if ps_lo_side ps' then tag_hi else tag_lo) = t)) /\
+  NoDup (map pkey (specs counts lo n a)).
+Proof. exact step_matching. Qed.
+Print Assumptions C05_step_matching.
+
+(* THE EVERY-SCHEDULE THEOREM for the literal, co-simulated programs: for every count vector (zeros included) and all
+   local arrays, the system of the P programs with empty channels has a run to the state in which rank r has returned
+   the r-th array of `psort counts xs` (the sequential network = the round semantics, C05_dist_equals_seq) and all
+   channels are empty; every schedule ends there; no reachable state is stuck *)
+Theorem C05_every_schedule : forall counts (xs : list (list Z)), map (@length Z) xs = counts ->
+  let P := Z.of_nat (length counts) in
+  let s0 := mkgs (fun r => if ((0 <=? r) && (r <? P))%Z
+                           then psort_prog c_SC_TAG_PSORT_LO c_SC_TAG_PSORT_HI counts (Z.to_nat r) (nth (Z.to_nat r) xs [])
+                           else Ret [])
+                 (fun _ _ _ => []) in
+  let f := mkgs (fun r => if ((0 <=? r) && (r <? P))%Z
+                          then Ret (nth (Z.to_nat r) (psort Z Z.gtb zsort counts xs) [])
+                          else Ret [])
+                (fun _ _ _ => []) in
+  exists n, run_p n s0 f /\ final f /\ terminal_for_p s0 f n.
+Proof.
+  intros counts xs H.
+  exact (psort_prog_every_schedule c_SC_TAG_PSORT_LO c_SC_TAG_PSORT_HI counts xs ltac:(discriminate) H).
+Qed.
+Print Assumptions C05_every_schedule.
+
+(* ... combined with C05_sorted / C05_permutation_counts: THE TEXT OF THE PROPERTY for the message-passing system.  Every
+   schedule ends in the state f in which the ranks have returned arrays ys that are globally sorted, a permutation of
+   the input, with every rank's count kept *)
+Theorem C05_every_schedule_sorted_permutation_counts : forall counts (xs : list (list Z)), map (@length Z) xs = counts ->
+  let P := Z.of_nat (length counts) in
+  let s0 := mkgs (fun r => if ((0 <=? r) && (r <? P))%Z
+                           then psort_prog c_SC_TAG_PSORT_LO c_SC_TAG_PSORT_HI counts (Z.to_nat r) (nth (Z.to_nat r) xs [])
+                           else Ret [])
+                 (fun _ _ _ => []) in
+  exists (n : nat) (f : gs) (ys : list (list Z)),
+    run_p n s0 f /\ final f /\ terminal_for_p s0 f n /\
+    (forall me, me < length counts -> pr f (Z.of_nat me) = Ret (nth me ys [])) /\
+    (forall a d t, ch f a d t = []) /\
+    ys = psort Z Z.gtb zsort counts xs /\
+    StronglySorted Z.le (concat ys) /\
+    Permutation (concat ys) (concat xs) /\
+    map (@length Z) ys = counts.
+Proof.
+  intros counts xs H.
+  exact (psort_prog_every_schedule_sorted c_SC_TAG_PSORT_LO c_SC_TAG_PSORT_HI counts xs ltac:(discriminate) H).
+Qed.
+Print Assumptions C05_every_schedule_sorted_permutation_counts.
+
+(* THE SAME FOR EVERY ELEMENT TYPE, comparison, length-preserving local sort, payload representation with
+   dec (enc l) = l, and any two different tags: the program `psort_prog_g` (PsortSched.v) is `psort_prog` with
+   A, gt, sort, enc, dec in place of Z, Z.gtb, zsort, identity, identity *)
+Theorem C05_every_schedule_any_element_type : forall (A : Type) (gt : A -> A -> bool) (sort : bool -> list A -> list A),
+  (forall d l, length (sort d l) = length l) ->
+  forall (enc : list A -> payload) (dec : payload -> list A), (forall l, dec (enc l) = l) ->
+  forall tag_lo tag_hi : Z, tag_lo <> tag_hi ->
+  forall counts xs, map (@length A) xs = counts ->
+  let P := Z.of_nat (length counts) in
+  let s0 := mkgs (fun r => if ((0 <=? r) && (r <? P))%Z
+                           then psort_prog_g A gt sort enc dec tag_lo tag_hi counts (Z.to_nat r) (nth (Z.to_nat r) xs [])
+                           else Ret [])
+                 (fun _ _ _ => []) in
+  let f := mkgs (fun r => if ((0 <=? r) && (r <? P))%Z
+                          then Ret (enc (nth (Z.to_nat r) (psort A gt sort counts xs) []))
+                          else Ret [])
+                (fun _ _ _ => []) in
+  exists n, run_p n s0 f /\ final f /\ terminal_for_p s0 f n.
+Proof. exact psort_every_schedule. Qed.
+Print Assumptions C05_every_schedule_any_element_type.
+
+Theorem C05_every_schedule_sorted_permutation_counts_any_element_type : forall (A : Type) (le : A -> A -> bool),
+  (forall a b, le a b = true \/ le b a = true) ->
+  (forall a b c, le a b = true -> le b c = true -> le a c = true) ->
+  forall sort : bool -> list A -> list A,
+  (forall d l, Permutation (sort d l) l) ->
+  (forall l, Sorted (fun a b => le a b = true) (sort true l)) ->
+  (forall l, Sorted (fun a b => le b a = true) (sort false l)) ->
+  forall (enc : list A -> payload) (dec : payload -> list A), (forall l, dec (enc l) = l) ->
+  forall tag_lo tag_hi : Z, tag_lo <> tag_hi ->
+  forall counts xs, map (@length A) xs = counts ->
+  let gt := gt_of A le in
+  let P := Z.of_nat (length counts) in
+  let s0 := mkgs (fun r => if ((0 <=? r) && (r <? P))%Z
+                           then psort_prog_g A gt sort enc dec tag_lo tag_hi counts (Z.to_nat r) (nth (Z.to_nat r) xs [])
+                           else Ret [])
+                 (fun _ _ _ => []) in
+  exists (n : nat) (f : gs) (ys : list (list A)),
+    run_p n s0 f /\ final f /\ terminal_for_p s0 f n /\
+    (forall me, me < length counts -> pr f (Z.of_nat me) = Ret (enc (nth me ys []))) /\
+    (forall a d t, ch f a d t = []) /\
+    ys = psort A gt sort counts xs /\
+    StronglySorted (fun a b => le a b = true) (concat ys) /\
+    Permutation (concat ys) (concat xs) /\
+    map (@length A) ys = counts.
+Proof. exact psort_every_schedule_sorted. Qed.
+Print Assumptions C05_every_schedule_sorted_permutation_counts_any_element_type.
+
+(* the WINDOW FORM of the programs (every merge step: all sends, then all receives, then the computation -
+   `psort_prog_w`; the literal program is `nbeq`-related to it: psort_prog_window_form) under the BLOCKING semantics of
+   MPI/Sem.v (every Recv is an MPI_Recv): a run to the same final state exists and every schedule of Sem.v ends there *)
+Theorem C05_every_schedule_window_form_blocking : forall (A : Type) (gt : A -> A -> bool) (sort : bool -> list A -> list A),
+  (forall d l, length (sort d l) = length l) ->
+  forall (enc : list A -> payload) (dec : payload -> list A), (forall l, dec (enc l) = l) ->
+  forall tag_lo tag_hi : Z, tag_lo <> tag_hi ->
+  forall counts xs, map (@length A) xs = counts ->
+  let P := Z.of_nat (length counts) in
+  let s0 := mkgs (fun r => if ((0 <=? r) && (r <? P))%Z
+                           then psort_prog_w A gt sort enc dec tag_lo tag_hi counts (Z.to_nat r) (nth (Z.to_nat r) xs [])
+                           else Ret [])
+                 (fun _ _ _ => []) in
+  let f := mkgs (fun r => if ((0 <=? r) && (r <? P))%Z
+                          then Ret (enc (nth (Z.to_nat r) (psort A gt sort counts xs) []))
+                          else Ret [])
+                (fun _ _ _ => []) in
+  exists n, Sem.run n s0 f /\ SemFrame.terminal_for s0 f n.
+Proof. exact psort_w_every_schedule. Qed.
+Print Assumptions C05_every_schedule_window_form_blocking.
+
+(* an instance: five ranks, one of them without elements - every schedule ends in these arrays *)
+Example C05_ex_every_schedule :
+  let s0 := mkgs (fun r => if ((0 <=? r) && (r <? 5))%Z
+                           then psort_prog c_SC_TAG_PSORT_LO c_SC_TAG_PSORT_HI [3;0;2;4;1] (Z.to_nat r)
+                                           (nth (Z.to_nat r) [[5;3;9];[];[1;7];[2;8;4;6];[0]]%Z [])
+                           else Ret [])
+                 (fun _ _ _ => []) in
+  let f := mkgs (fun r => if ((0 <=? r) && (r <? 5))%Z
+                          then Ret (nth (Z.to_nat r) [[0;1;2];[];[3;4];[5;6;7;8];[9]]%Z [])
+                          else Ret [])
+                (fun _ _ _ => []) in
+  exists n, run_p n s0 f /\ final f /\ terminal_for_p s0 f n.
+Proof.
+  assert (E : psort Z Z.gtb zsort [3;0;2;4;1] [[5;3;9];[];[1;7];[2;8;4;6];[0]]%Z = [[0;1;2];[];[3;4];[5;6;7;8];[9]]%Z)
+    by (vm_compute; reflexivity).
+  pose proof (C05_every_schedule [3;0;2;4;1] [[5;3;9];[];[1;7];[2;8;4;6];[0]]%Z eq_refl) as H.
+  cbv zeta in H. rewrite E in H. exact H.
+Qed.
+
+(* negative control: read with BLOCKING receives (MPI/Sem.v) the literal posting order Irecv; Isend is stuck from the
+   start as soon as two ranks exchange a segment *)
+Example C05_ex_posting_order_blocks :
+  let s0 := zstart 293 294 [1; 1] [[2]; [1]]%Z in (forall x s', ~ step s0 x s') /\ ~ final s0.
+Proof. exact psort_posting_order_blocks. Qed.
+
+(* the executable scheduler of C05/PsortSchedExec.v (a test harness for step_p, not part of the proofs): three
+   pseudo-random schedules of the five-rank instance end, after the same number of steps, with no move left, all
+   channels empty and the sorted arrays; so do all count vectors of three ranks (counts <= 2) and two ranks (counts <= 4) *)
+Example C05_ex_executable_scheduler :
+  map (fun seed => let '(s, n) := exec 2000 seed (estart 293 294 [3; 0; 2; 4; 1] [[5; 3; 9]; []; [1; 7]; [2; 8; 4; 6]; [0]]%Z) in
+                   (outs s, all_empty s, moves s, n)) [1; 2; 12345]%Z
+  = repeat ([Some [0; 1; 2]; Some []; Some [3; 4]; Some [5; 6; 7; 8]; Some [9]]%Z, true, [], 72) 3 /\
+  forallb (fun cv => forallb (fun seed => test seed cv (split_counts Z cv data)) [3; 777]%Z)
+          (all_counts 3 2 ++ all_counts 2 4) = true.
+Proof. exact (conj exec_five_ranks exec_small_instances). Qed.
